@@ -3,6 +3,7 @@ package c13
 import (
 	"fmt"
 	"regexp"
+	"strconv"
 	"strings"
 	"testing"
 	"time"
@@ -22,6 +23,7 @@ type Case struct {
 	Target  string    `json:"target"`  // for null tests: "col", "path", "func"
 	Texts   []gen.Val `json:"texts"`
 	Bare    bool      `json:"bare,omitempty"` // force the contexts excluded by open findings (witness cases)
+	Twin    bool      `json:"twin,omitempty"` // like: afterwards the same texts against the case-swapped pattern
 	// Combo (kind "combo"): `x LIKE p <Conj> y IS [NOT] NULL` (or the other way round) over a second column y
 	Conj      string `json:"conj,omitempty"`
 	NotNull   bool   `json:"not_null,omitempty"`
@@ -124,7 +126,7 @@ func genCase(t *rapid.T) Case {
 	}
 	if k < 7 {
 		c := Case{Kind: "like"}
-		switch rapid.IntRange(0, 7).Draw(t, "shape") {
+		switch rapid.IntRange(0, 8).Draw(t, "shape") {
 		case 0:
 			c.Pattern = "%%"
 		case 1:
@@ -135,12 +137,29 @@ func genCase(t *rapid.T) Case {
 			c.Pattern = genStr(t, "p", 4) + "%"
 		case 4:
 			c.Pattern = genStr(t, "p", 3) + "%" + genStr(t, "q", 3)
+		case 5:
+			// head and tail share a piece: h o % o r; the text h o r is too short to match, its end nevertheless equals the tail
+			lit := func(label string, min, max int) string {
+				n := rapid.IntRange(min, max).Draw(t, label+"n")
+				var sb strings.Builder
+				for i := 0; i < n; i++ {
+					sb.WriteString(rapid.SampledFrom([]string{"a", "b", ".", "a", "b", "$"}).Draw(t, label))
+				}
+				return sb.String()
+			}
+			h, o, r := lit("h", 0, 2), lit("o", 1, 2), lit("r", 0, 2)
+			if rapid.Bool().Draw(t, "underscore") && len(h) > 0 {
+				h = "_" + h[1:]
+			}
+			c.Pattern = h + o + "%" + o + r
+			c.Texts = append(c.Texts, gen.Str(strings.ReplaceAll(h, "_", "b")+o+r), gen.Str(strings.ReplaceAll(h, "_", "b")+o+o+r))
 		default:
 			c.Pattern = genStr(t, "p", 7)
 		}
 		if pbt.Open("C13", "space-pattern") {
 			c.Pattern = strings.ReplaceAll(c.Pattern, " ", "b")
 		}
+		c.Twin = rapid.IntRange(0, 3).Draw(t, "twin") == 0
 		nt := rapid.IntRange(1, 8).Draw(t, "nt")
 		re := likeRe(c.Pattern)
 		for i := 0; i < nt; i++ {
@@ -168,6 +187,36 @@ func genCase(t *rapid.T) Case {
 				v = gen.Str(sb.String())
 			case 5:
 				v = gen.Int(int64(rapid.IntRange(0, 12).Draw(t, "int")))
+			case 6, 7:
+				// near misses: the head up to the last % followed by a tail that lost its first characters (the tail fits
+				// only by overlapping what the head consumed), a matching text with one character dropped, doubled or in
+				// the other case
+				m := strings.NewReplacer("_", "a").Replace(c.Pattern)
+				if i := strings.LastIndex(m, "%"); i >= 0 && rapid.Bool().Draw(t, "overlap") {
+					head, tail := strings.ReplaceAll(m[:i], "%", ""), m[i+1:]
+					tr := []rune(tail)
+					k := 0
+					if len(tr) > 0 {
+						k = rapid.IntRange(1, len(tr)).Draw(t, "cut")
+					}
+					tail = string(tr[k:])
+					k = 0
+					v = gen.Str(head + tail[k:])
+				} else {
+					rs := []rune(strings.ReplaceAll(m, "%", ""))
+					if len(rs) > 0 {
+						j := rapid.IntRange(0, len(rs)-1).Draw(t, "at")
+						switch rapid.IntRange(0, 2).Draw(t, "edit") {
+						case 0:
+							rs = append(rs[:j:j], rs[j+1:]...)
+						case 1:
+							rs = append(rs[:j+1:j+1], rs[j:]...)
+						default:
+							rs[j] = []rune(swapCase(string(rs[j])))[0]
+						}
+					}
+					v = gen.Str(string(rs))
+				}
 			default:
 				v = gen.Str(genStr(t, "t", 7))
 			}
@@ -362,7 +411,40 @@ func havingSQL(c Case) string {
 	return "SELECT last_value(x) AS x, max(id) AS id FROM stream GROUP BY CountingWindow(1) HAVING " + pred(c)
 }
 
+// runCase starts from empty process-wide expression caches (the case is the whole history they see); a like case
+// with Twin set is followed, in the same process state, by the same texts against the pattern with its letters'
+// case swapped: LIKE is case-sensitive, and the second query differs from the first in letter case only.
 func runCase(c Case) (res pbt.Result) {
+	run.ResetExprCaches()
+	res = runOne(c)
+	if c.Kind == "like" && c.Twin && len(res.Discs) == 0 {
+		c2 := c
+		c2.Pattern = swapCase(c.Pattern)
+		if c2.Pattern != c.Pattern {
+			r2 := runOne(c2)
+			for _, d := range r2.Discs {
+				d.Detail = "after the same query with pattern " + strconv.Quote(c.Pattern) + ": " + d.Detail
+				res.Discs = append(res.Discs, d)
+			}
+			res.Class("case-twin-pattern")
+		}
+	}
+	return
+}
+
+func swapCase(s string) string {
+	return strings.Map(func(r rune) rune {
+		switch {
+		case r >= 'a' && r <= 'z':
+			return r - 32
+		case r >= 'A' && r <= 'Z':
+			return r + 32
+		}
+		return r
+	}, s)
+}
+
+func runOne(c Case) (res pbt.Result) {
 	p := pred(c)
 	for _, cx := range contexts(c) {
 		var s *streamsql.Streamsql
@@ -555,12 +637,12 @@ func features(c Case) []string {
 }
 
 var spec = pbt.Spec[Case]{
-	ID:   "C13",
-	Rule: "generated: LIKE patterns over {%,_,a,b,.,*,(,[,+,?,^,$,é,space} with forced shapes (%%, empty, leading/trailing/inner wildcards, pattern = text, texts expanded from the pattern) x texts (strings over the same alphabet, NULL, missing, ints) and IS [NOT] NULL tests on a column, nested path and function call; each evaluated in WHERE, CASE WHEN, SELECT boolean item and HAVING (one-row counting window). oracle: anchored regexp built with QuoteMeta per literal character (% -> .*, _ -> .), NULL/missing text not true; IS NULL <=> absent or NULL; same answer in every context. non-trivial = pattern with an inner wildcard or a text containing % or _ (LIKE), both a NULL and a non-NULL row (null tests); distinct by case hash",
+	ID:          "C13",
+	Rule:        "generated: LIKE patterns over {%,_,a,b,.,*,(,[,+,?,^,$,é,space} with forced shapes (%%, empty, leading/trailing/inner wildcards, head and tail sharing a piece (h o % o r with the too-short text h o r), pattern = text, texts expanded from the pattern, near misses: head + truncated tail around the last %, one character dropped / doubled / case-swapped); one like case in four is followed by the same texts against the case-swapped pattern in the same process state; every case starts from empty process-wide expression caches; x texts (strings over the same alphabet, NULL, missing, ints) and IS [NOT] NULL tests on a column, nested path and function call; each evaluated in WHERE, CASE WHEN, SELECT boolean item and HAVING (one-row counting window). oracle: anchored regexp built with QuoteMeta per literal character (% -> .*, _ -> .), NULL/missing text not true; IS NULL <=> absent or NULL; same answer in every context. non-trivial = pattern with an inner wildcard or a text containing % or _ (LIKE), both a NULL and a non-NULL row (null tests); distinct by case hash",
 	Assumptions: []string{"string literals cannot contain the quote character (lexer has no escape)", "LIKE on a non-string value and the value of other functions on NULL are not fixed by the property: only crash-freedom is checked there"},
-	Gen:      genCase,
-	Run:      runCase,
-	Features: features,
+	Gen:         genCase,
+	Run:         runCase,
+	Features:    features,
 }
 
 func TestProp(t *testing.T)    { pbt.RunProp(t, spec) }
